@@ -6,15 +6,30 @@ HOOK_COMMITS = subprocess.run(["git", "-C", "/repo", "log", "--format=%H %s"], c
 hooks = [l.split()[0] for l in HOOK_COMMITS if " verif-hooks:" in l]
 
 CHECKS = {
+ "C01": dict(engine="vsim", technique="runtime monitoring: world simulator drives the real library through generated fork/delivery histories; convergence oracle = a race-free oracle replica fed only the MIP-03 winners; divergences classified by history-derived predicates",
+   text="Exploration: held on N generated histories (forks of 1-3 concurrent commits with pinned wrapper timestamps incl. ties, duplicates, per-member delivery orders, echo/immediate own-commit modes, causal/unrestricted delivery, leave proposals, roster changes, nostr-id rotations). After the re-offer fixpoint every remaining member is compared with an oracle replica that applied only the MIP-03-selected chain. In the clean regime any divergence is a violation; in dirty regimes divergences must match a listed known finding exactly.",
+   note="Delivery orders are harness-chosen abstract schedules; wrapper created_at pinned by hook H1; key material (and so the id tie-break) is fresh per run; observation through the public API + load_mls_group (repo feature debug-examples). Forks deeper than the configured retention are generated but not judged.", ref="5/C01"),
+ "C02": dict(engine="vsim", technique="runtime monitoring: exactly-once / intact / valid accounting of uniquely tagged application messages over simulator histories against the canonical chain",
+   text="Exploration: on the same histories as C01 every application message (unique body) created on the canonical chain must be stored exactly once, unaltered and Processed at every converged client that was in its sending state (inside the configured past-epoch window at first delivery); messages of losing branches must not be left valid.",
+   note="Judges only clients that converged (others are C01's business); default sender-ratchet windows are never exceeded by the generated bursts.", ref="5/C02"),
+ "C07": dict(engine="vsim", technique="runtime monitoring: re-delivery probes inside simulator histories with before/after fingerprint comparison of every group of the client",
+   text="Exploration: events that have taken effect at a client (stored message, applied or superseded commit, queued proposal, own echoes) are re-delivered 1-3 times at random later points and after the fixpoint; the complete fingerprint (record, relays, MLS, members, group data, pending proposals, messages with states) of every group must be unchanged.",
+   note="The dedup/failure record is not part of the observable state (as the property words it); processed_at is excluded.", ref="5/C07"),
+ "C08": dict(engine="vsim", technique="runtime monitoring: invariant hook evaluated after every single API step of simulator histories (stored record/relays vs MLS state, routing by the id in force)",
+   text="Exploration: after every step (local operation or processed event, incl. rollbacks, echoes, immediate merges, welcomes, id rotations, relay changes, two groups sharing clients) the acting client's stored record and relay set are compared field by field with its MLS state and the id in force must resolve to the group.",
+   note="Only groups in state Active are judged (as the property says).", ref="5/C08"),
  "C09": dict(engine="vstore", technique="runtime monitoring: frame/restore-condition monitor over complete store read-outs after every operation of generated snapshot/rollback histories (both backends)",
    text="Exploration: held on N generated operation sequences; after every single operation the complete observable read-out of the store is compared with the one before it (frame condition) and, on rollback, with the read-out recorded when the snapshot was taken (restore condition). Sampling of sequences, not a proof; right level because the property quantifies over operation histories and the deciding evidence is the observed store state.",
    note="Trusts the read API as the observation channel (every trait read method over a small key universe); snapshots only of existing groups; wall-clock snapshot timestamps not compared.", ref="5/C09"),
  "C10": dict(engine="vstore", technique="runtime monitoring: differential execution of generated operation histories on memory backend, SQLite backend and an executable reference model, comparing result classes and full read-outs",
    text="Exploration: held on N generated operation sequences; each operation's result class and periodically the complete read-out are compared between the two real backends and an independent ~300-line reference model of the storage contract.",
    note="Inside the intersection of both backends' documented limits; error wording not compared; LRU capacity never approached.", ref="5/C10"),
- "C18": dict(engine="vstore", technique="runtime monitoring: ordering/pagination oracle over generated message sets on both backends (storage half)",
+ "C18": dict(engine="vstore", technique="runtime monitoring: ordering/pagination oracle over generated message sets on both backends + last-message-pointer invariant after every step of simulator histories",
    text="Exploration: every listing produced for generated message sets with forced timestamp ties is compared with the documented total order computed independently; pages are concatenated and compared with the full listing; out-of-range limits must be refused.",
-   note="Storage-level half; the last-message-pointer half runs on simulator histories once the simulator lands.", ref="5/C18"),
+   note="Two halves in one command: storage-level ordering/pagination on both backends, and the last-message pointer + ordering after every step of simulator histories.", ref="5/C18"),
+ "C20": dict(engine="vsim", technique="runtime monitoring: invariant hook after every step of simulator histories listing the stored rollback snapshots (count, epochs, commit ids vs the client's applied commits)",
+   text="Exploration: after every step of histories with retention 1,2,3,5 the acting client's snapshots are listed: at most `retention`, one per epoch, all below the current epoch, each naming the commit applied at that epoch on the client's current branch, no gap above the oldest kept one.",
+   note="TTL pruning at start-up and restarts are covered by the C11/C20 restart workloads when they land; snapshot names are parsed (snap_<gid>_<epoch>_<commit id>).", ref="5/C20"),
 }
 
 ALL = ["C%02d" % i for i in range(1, 21)]
@@ -49,6 +64,7 @@ def main():
         },
         "engines": [
             {"name": "vstore", "path": "/verif/harness/src/vstore", "serves_properties": ["C09", "C10", "C18", "C19"], "kind_free_text": "storage-level operation language, generator, interpreter over real backends, full read-out, executable reference model"},
+            {"name": "vsim", "path": "/verif/harness/src/sim", "serves_properties": ["C01", "C02", "C07", "C08", "C18", "C20"], "kind_free_text": "world simulator: N real MDK clients (memory / SQLite), relay log, harness-chosen delivery schedules, pinned wrapper timestamps, oracle replica, per-step monitors"},
         ],
         "checks": checks,
         "notes": "All checks: exit 0 = held on what was observed or inconclusive (reason in evidence.coverage.inconclusive); exit 1 + VIOLATION line = violated; exit 2 = harness does not build. Known findings: /verif/known-findings.txt.",
